@@ -757,6 +757,10 @@ pub fn run_calculator(line: &str) -> Result<String, &str> {
     if tools::nesting_depth(line, '(', ')') > tools::MAX_NESTING {
         return Err("syntax error: parentheses nested too deeply");
     }
+    // a chain of `^` is evaluated from the right, one level per operator
+    if line.matches('^').count() > tools::MAX_NESTING {
+        return Err("syntax error: too many exponentiations");
+    }
     let parse_result = calculator::calculate(line);
     match parse_result {
         Ok(mut calc) => {
